@@ -91,7 +91,7 @@ func TestC05(t *testing.T) {
 		return
 	}
 	g := cfg()
-	vcore.Check(t, vcore.N(1200, 4000), func(rt *rapid.T) {
+	vcore.Check(t, vcore.N(1200, 12000), func(rt *rapid.T) {
 		c := sessmodel.Case{Ops: sessmodel.Gen(rt, g)}
 		r := sessmodel.Run(c, or)
 		account(c, r)
